@@ -60,8 +60,18 @@ def flatten(t):
     return [x for c in t for x in flatten(c)]
 
 
-def mk(sep):
-    return Separator(phone=sep[0], syllable=sep[1], word=sep[2])
+_SHARED = {}
+
+
+def mk(sep, fresh=False):
+    """one Separator object per triple, REUSED by every method call of the run (an answer must not depend on what
+    the object was asked before); constructor cases ask for a fresh object"""
+    if fresh:
+        return Separator(phone=sep[0], syllable=sep[1], word=sep[2])
+    key = tuple(sep)
+    if key not in _SHARED:
+        _SHARED[key] = Separator(phone=sep[0], syllable=sep[1], word=sep[2])
+    return _SHARED[key]
 
 
 def case(kind, sep, utt, level, keep, family, oracle=None):
@@ -95,7 +105,7 @@ def case(kind, sep, utt, level, keep, family, oracle=None):
 
 def ctor_case(sep, family):
     def impl():
-        return call_impl(lambda: (mk(sep), None)[1])
+        return call_impl(lambda: (mk(sep, fresh=True), None)[1])
 
     def oracle(out):
         ds = [x for x in sep if x]
